@@ -43,9 +43,42 @@ func decoder[T any]() func([]byte) (core.Case, error) {
 	}
 }
 
-// cli runs the CLI with "-d root" in front of args.
+// cli runs the CLI on the CRS root. How the global flags are spelled is varied deterministically (by a hash of the
+// command line): -d / --directory / --directory=, in front of or behind the sub-command, pointing at the root or at its
+// regex-assembly directory (from where the root has to be found), with or without a log level. None of this may change
+// what a command does, so every monitor also exercises these spellings.
 func cli(env *core.Env, root string, stdin []byte, args ...string) *sut.Result {
-	full := append([]string{"-d", root}, args...)
+	h := uint32(2166136261)
+	for _, a := range args {
+		for i := 0; i < len(a); i++ {
+			h = (h ^ uint32(a[i])) * 16777619
+		}
+	}
+	for i := 0; i < len(root); i++ {
+		h = (h ^ uint32(root[i])) * 16777619
+	}
+	dir := root
+	if (h>>8)%5 == 0 {
+		dir = filepath.Join(root, "regex-assembly")
+	}
+	var flags []string
+	switch h % 4 {
+	case 0, 1:
+		flags = []string{"-d", dir}
+	case 2:
+		flags = []string{"--directory", dir}
+	default:
+		flags = []string{"--directory=" + dir}
+	}
+	if (h>>16)%6 == 0 {
+		flags = append(flags, "--log-level", []string{"debug", "error", "warn"}[(h>>20)%3])
+	}
+	var full []string
+	if h%4 == 1 {
+		full = append(append([]string{}, args...), flags...)
+	} else {
+		full = append(flags, args...)
+	}
 	return sut.Run(sut.Cmd{Bin: env.Bin, Args: full, Stdin: stdin, Dir: root})
 }
 
